@@ -404,9 +404,11 @@ func (s *session) exec(w *tr.W, op string) {
 		b := build(s.g, f[1])
 		s.bt[f[1]] = &b
 		w.Op(op, b.status)
-	case "W":
+	case "W", "X", "Y":
+		// W: string within the exhaustive bound; X: longer string with a leftmost derivation as membership
+		// witness (third field, checked by the model side); Y: longer string without witness
 		toks := ""
-		if len(f) > 1 {
+		if len(f) > 1 && f[1] != "_" {
 			toks = f[1]
 		}
 		var parts []string
@@ -450,7 +452,8 @@ func runCase(w *tr.W, g *gspec, ops []string) {
 	w.End()
 }
 
-// stdOps: build with all three methods, then every token string up to length n.
+// stdOps: build with all three methods, then every token string up to length n, then longer
+// sentences with their derivations (X) and one-token corruptions of them (Y).
 func stdOps(g *gspec, n int) []string {
 	ops := []string{"B slr", "B lalr", "B clr"}
 	allStrings(g.terms, n, func(s string) {
@@ -460,6 +463,121 @@ func stdOps(g *gspec, n int) []string {
 			ops = append(ops, "W "+s)
 		}
 	})
+	return append(ops, longOps(g, n)...)
+}
+
+var longRng = rng.FromEnv(1100)
+
+// minLen[A] = length of a shortest sentence of A (productive non-terminals only)
+func minLens(g *gspec) map[byte]int {
+	ml := map[byte]int{}
+	for ch := true; ch; {
+		ch = false
+		for _, p := range g.prods {
+			t, ok := 0, true
+			for i := 0; i < len(p.body); i++ {
+				if c := p.body[i]; isTerm(c) {
+					t++
+				} else if v, has := ml[c]; has {
+					t += v
+				} else {
+					ok = false
+				}
+			}
+			if ok {
+				if v, has := ml[p.head]; !has || t < v {
+					ml[p.head] = t
+					ch = true
+				}
+			}
+		}
+	}
+	return ml
+}
+
+// randomDerivation: a leftmost derivation from the start symbol aiming at a sentence of about `target` tokens.
+func randomDerivation(g *gspec, r *rng.R, target int) (string, []string, bool) {
+	ml := minLens(g)
+	cost := func(b string) int {
+		t := 0
+		for i := 0; i < len(b); i++ {
+			if isTerm(b[i]) {
+				t++
+			} else {
+				t += ml[b[i]]
+			}
+		}
+		return t
+	}
+	form := string(g.start)
+	var deriv []string
+	for steps := 0; steps < 400; steps++ {
+		k := -1
+		for i := 0; i < len(form); i++ {
+			if !isTerm(form[i]) {
+				k = i
+				break
+			}
+		}
+		if k < 0 {
+			return form, deriv, true
+		}
+		var cands []prod
+		for _, p := range g.prods {
+			if p.head == form[k] {
+				cands = append(cands, p)
+			}
+		}
+		if len(cands) == 0 {
+			return "", nil, false
+		}
+		rest := cost(form[:k]) + cost(form[k+1:])
+		var pick prod
+		if rest+ml[form[k]] >= target || steps > 200 {
+			// finish: cheapest production
+			pick = cands[0]
+			for _, p := range cands {
+				if cost(p.body) < cost(pick.body) {
+					pick = p
+				}
+			}
+		} else {
+			pick = cands[r.Intn(len(cands))]
+		}
+		deriv = append(deriv, string(pick.head)+"="+pick.body)
+		form = form[:k] + pick.body + form[k+1:]
+		if len(form) > 60 {
+			return "", nil, false
+		}
+	}
+	return "", nil, false
+}
+
+func longOps(g *gspec, n int) []string {
+	var ops []string
+	seen := map[string]bool{}
+	for i := 0; i < 12 && len(ops) < 10; i++ {
+		w, d, ok := randomDerivation(g, longRng, n+1+longRng.Intn(8))
+		if !ok || len(w) <= n || len(w) > 24 || seen[w] {
+			continue
+		}
+		seen[w] = true
+		ops = append(ops, "X "+w+" "+strings.Join(d, ";"))
+		// a corrupted copy: replace, delete or duplicate one token
+		b := []byte(w)
+		k := longRng.Intn(len(b))
+		switch longRng.Intn(3) {
+		case 0:
+			b[k] = g.terms[longRng.Intn(len(g.terms))]
+		case 1:
+			b = append(b[:k:k], b[k+1:]...)
+		default:
+			b = append(b[:k+1:k+1], b[k:]...)
+		}
+		if len(b) > n {
+			ops = append(ops, "Y "+string(b))
+		}
+	}
 	return ops
 }
 
